@@ -4,7 +4,7 @@
 use crate::gen::*;
 use crate::rng::Rng;
 
-pub const N_SHAPES: u64 = 19;
+pub const N_SHAPES: u64 = 20;
 
 fn one_dynamic_block(r: &mut Rng, w: &mut BitW, toks: &[Tok], last: bool, maxlen: u8, no_rle: bool) {
     let cfg = GenCfg {
@@ -476,6 +476,40 @@ pub fn shape(idx: u64, r: &mut Rng) -> (String, Vec<u8>, Vec<u8>) {
             let llc = canon_codes(&ll);
             let dlc = canon_codes(&dl);
             write_tokens(&mut w, &toks, &ll, &llc, &dl, &dlc);
+        }
+        18 => {
+            // block counts beyond what 8-bit (and, one time in four, 16-bit) counters hold
+            let many = (idx / N_SHAPES) % 4 == 3;
+            name = if many { "more than 65536 blocks, most of them empty stored blocks" } else { "several hundred small blocks of all three types" };
+            let n = if many { 65537 + r.usize_below(500) } else { 250 + r.usize_below(450) };
+            for i in 0..n {
+                if many && i % 97 != 0 {
+                    one_stored_block(&mut w, &[], false, 0);
+                    continue;
+                }
+                match r.below(3) {
+                    0 => {
+                        let l = r.usize_below(6);
+                        let d = r.bytes(l);
+                        plain.extend_from_slice(&d);
+                        one_stored_block(&mut w, &d, false, r.below(256) as u32);
+                    }
+                    1 => {
+                        let toks: Vec<Tok> = (0..1 + r.usize_below(4)).map(|_| Tok::Lit(97 + r.below(4) as u8)).collect();
+                        apply(&mut plain, &toks);
+                        one_fixed_block(&mut w, &toks, false);
+                    }
+                    _ => {
+                        let toks: Vec<Tok> = (0..1 + r.usize_below(6)).map(|_| Tok::Lit(97 + r.below(4) as u8)).collect();
+                        apply(&mut plain, &toks);
+                        let nr = r.chance(1, 2);
+                        one_dynamic_block(r, &mut w, &toks, false, 15, nr);
+                    }
+                }
+            }
+            let toks = vec![Tok::Lit(r.byte())];
+            apply(&mut plain, &toks);
+            one_fixed_block(&mut w, &toks, true);
         }
         _ => {
             name = "single-literal and empty final blocks with every padding";
